@@ -210,8 +210,10 @@ def run(ck, F, tier):
                       '(no static argument in reach). Decided are the structural conditions of its mechanism list, each necessary: Z the zig-zag table; D the macroblock-body '
                       'call-site agreement (CBP entry, level array, block position, blocks per line, plane and row length line up between decode_block, inverse_rle and '
                       'idct_channel; level-array sizes; mb_per_line = ceil(w/16)); H quantizer tracking; plus, shared with other properties and re-run here: dequantisation '
-                      'form and INTRADC mapping (C11 A, C), the IDCT clauses (C10 A, B, C, E) and plane allocation (C13 P).')
-    ck.assumptions += ['numerical equality of the f32 row/column IDCT with the ideal transform rounded to nearest is NOT decided', 'syntax-level parsing of blocks (TCOEF tables, escapes) is C11/C05 territory']
+                      'form and INTRADC mapping (C11 A, C), the IDCT clauses (C10 A, B, C, E) and plane allocation (C13 P); and MB the macroblock / block layer syntax: VLC tables TCOEF, MCBPC (I), '
+                      'CBPY against Tables 16, 7, 13 (code word -> event maps), Table 9 type predicates, and the decision tables of decode_macroblock, decode_dquant and decode_block '
+                      '(reads, presence conditions, order, returned fields, appended coefficients, LAST handling).')
+    ck.assumptions += ['numerical equality of the f32 row/column IDCT with the ideal transform rounded to nearest is NOT decided', 'stuffing / extra-information bytes of the picture layer are decided by C06']
     rule_z(ck, F)
     rule_d(ck, F)
     # shared clauses, re-run on this tree
@@ -219,3 +221,6 @@ def run(ck, F, tier):
     c11.a_formula(s11, F); c11.b_no_overflow(s11, F); c11.c_intradc(s11, F); c11.quant_update_table(s11, F)
     s10 = Scoped(ck, 'C10.')
     c10.rule_a(s10, F); c10.rule_b(s10, F); c10.rule_c(s10, F); c10.rule_e(s10, F)
+    # the bits of an intra macroblock are attributed to the right syntax elements (tables of 5.3 / 5.4)
+    from . import mblayer
+    mblayer.run_for(ck, F, 'MB.', ['tcoef', 'mcbpc_i', 'cbpy'], ['macroblock', 'dquant', 'block'])
